@@ -19,7 +19,13 @@ class Machinery(Exception):
 
 
 def workdir(prop: str) -> str:
-    d = os.path.join(VERIF, ".work", f"{prop}-{os.getpid()}")
+    root = os.path.join(VERIF, ".work")
+    # scratch of runs that were killed (their pid is the suffix): TLC state directories can be gigabytes
+    for old in (os.listdir(root) if os.path.isdir(root) else []):
+        pid = old.rsplit("-", 1)[-1]
+        if pid.isdigit() and not os.path.exists(f"/proc/{pid}"):
+            shutil.rmtree(os.path.join(root, old), ignore_errors=True)
+    d = os.path.join(root, f"{prop}-{os.getpid()}")
     shutil.rmtree(d, ignore_errors=True)
     os.makedirs(d)
     return d
